@@ -52,6 +52,21 @@ T = {
     "C10b": ("C10", "the window processor calls store.materialize() only when the current window loaded at least one triple",
              "rules registered, a non-empty firing directly followed by an empty-window firing",
              "C10-R2 (materialize always precedes execute_query)", None),
+    "C04b": ("C04", "delete_quad registers the quad's graph in the named-graph catalog before the membership test instead of after it",
+             "a delete of an absent quad whose graph does not exist (never created, or already dropped), followed by a look at the catalog",
+             "C04-R6 (a delete that removes nothing changes nothing)", "missed by C04-R1..R5; C04-R6 added"),
+    "C08b": ("C08", "retained_proof_wmc returns Ok with the count of the proofs compiled so far when the deadline expires after the first proof",
+             "the top-k deadline expiring at a clock reading inside retained_proof_wmc, after the first clause, while uncompiled proofs still carry mass",
+             "C08-R5 (budget failures propagate below the controller)", "missed by C08-R1..R4; C08-R5 added"),
+    "C09b": ("C09", "add_to_window rewritten to update windows in place; the `open <= t` half of the membership test is gone",
+             "width < slide and an item in the gap before the next window opens",
+             "C09-R2 (membership is exactly open <= t < close; active windows replaced once)", None),
+    "C11b": ("C11", "add_to_stream / add_probabilistic_to_stream compare streams by the text after the last `/` or `#` of the IRI",
+             "two different stream IRIs with the same last segment", "C11-R5 (stream routing compares whole identifiers)",
+             "missed by C11-R1..R4; C11-R5 added"),
+    "C12b": ("C12", "the split into carried and new/renewed facts tests `old expiry != new expiry` instead of `old < new`",
+             "a fact that is both streamed and derived with a longer expiry, at a second evaluation",
+             "C12-R1 (renewal re-seeds a fact iff its new expiry is later)", None),
     "C16b": ("C16", "sparql_aggregate returns the slice matched by the case-insensitive keyword helper instead of the canonical literal",
              "an aggregate keyword not written in upper case", "C16-R4 (keyword text never reaches the tree)",
              "missed by C16-R1..R3 (C01-R1 fired only through a floor, for the wrong reason); C16-R4 added, C01-R1 reads constant tables"),
